@@ -868,7 +868,8 @@ pub fn check(check: &str, tier: Tier) -> i32 {
         let key = (f.property.clone(), f.class.clone(), f.fingerprint.clone());
         let e = groups.entry(key).or_insert((unit, f.clone(), None, 0));
         e.3 += 1;
-        if e.2.is_none() && case.is_some() {
+        // representative: the lowest unit that attached its case (independent of arrival order)
+        if case.is_some() && (e.2.is_none() || unit < e.0) {
             e.0 = unit;
             e.1 = f;
             e.2 = case;
